@@ -24,7 +24,7 @@
 (***************************************************************************)
 EXTENDS Integers, Sequences, FiniteSets, SequencesExt, TLC, Json
 
-CONSTANTS MaxHonest, Slots, Contents, RootIds,
+CONSTANTS MaxHonest, Slots, Contents, RootIds, ExportOneIn,
           SignCoversNextKey, VerifyProof, SealCoversLastSig, KeepRootKeyId
 
 Root == 1
@@ -150,7 +150,8 @@ LookupOutcome(t, m) == LET K == Lookup(t.rid, m) IN IF K = 0 THEN "nokey" ELSE I
 LookupExact == \A i \in 1..Len(tokens) : \A m \in 1..Len(KeyMaps) :
                   LookupOutcome(tokens[i], KeyMaps[m]) = "ok" <=> Lookup(tokens[i].rid, KeyMaps[m]) = Root
 
-Export == phase = "done" =>
+\* every accepted attacker token is exported, and one in ExportOneIn of the rejected ones (1 = all)
+Export == phase = "done" /\ (Verify(atk, Root) \/ ExportOneIn = 1 \/ RandomElement(1..ExportOneIn) = 1) =>
     PrintT(<<"CASE", ToJson([hops |-> hops, tokens |-> [i \in 1..Len(tokens) |-> Wire(tokens[i])], given |-> given,
                               atk |-> atk, accept |-> Verify(atk, Root),
                               secrets |-> KnownSecrets])>>)
